@@ -72,5 +72,6 @@ extern long sim_hal_calls;                            /* watchdog: HAL calls sin
 /* serial line */
 typedef struct { uint8_t in[SIM_BUF]; int in_len, in_pos; uint8_t out[SIM_BUF]; int out_len; } SimSerial;
 extern SimSerial sim_serial[4];
+extern void (*sim_serial_hook)(int idx, const uint8_t* buf, int n);   /* called for every SerialPort_write */
 SerialPort sim_serial_port(int idx);
 #endif
